@@ -205,8 +205,10 @@ func c04Upstream(cfg string, tr http.RoundTripper) (proxy.Upstream, string) {
 	if err != nil || len(ups) != 1 {
 		return nil, fmt.Sprintf("setup-error:%v", err)
 	}
-	for _, h := range proxy.VerifHosts(ups[0]) {
-		h.ReverseProxy.Transport = tr
+	if tr != nil {
+		for _, h := range proxy.VerifHosts(ups[0]) {
+			h.ReverseProxy.Transport = tr
+		}
 	}
 	return ups[0], ""
 }
